@@ -14,6 +14,8 @@ package main
 import (
 	"fmt"
 	"math/rand"
+	"os"
+	"runtime/pprof"
 	"sort"
 	"strings"
 	"sync"
@@ -36,8 +38,14 @@ func main() {
 		"CloseProxy has no reply in the protocol: a following Ping/Pong on the same session is used as acknowledgement",
 		"a session drop is acknowledged when the run id has left the server's session table (verif snapshot), bounded by 20 s",
 		"operations on the same proxy name and operations on the same tcp group are issued one at a time (a failing duplicate registration legitimately holds a port for a moment; join concurrent with last leave is C13's subject and crashes the unfixed tree), everything else is concurrent",
-		"a refused request for a server-chosen port is tolerated when more than 5 ports are free and at least one of them is squatted (the server's search is bounded to 5 candidates)",
+		"a refused request for a server-chosen port is tolerated while at least one free allowed port is held by another program (the server chooses first and listens later, and its search is bounded to 5 candidates)",
 		"which sockets the server has bound is read from /proc/net/{tcp,udp} filtered by this process's socket inodes",
+	}
+	if pf := os.Getenv("C09_PROF"); pf != "" {
+		f, _ := os.Create(pf)
+		_ = pprof.StartCPUProfile(f)
+		defer pprof.StopCPUProfile()
+		time.AfterFunc(100*time.Second, pprof.StopCPUProfile)
 	}
 	ports = h.Ports(prop)
 	initBlocks()
